@@ -523,6 +523,9 @@ where
 
         let mut escape: Option<Escape> = None;
         let mut i = 0;
+        // Whether the current argument has started: a quote or a backslash
+        // starts one even when it contributes no bytes (e.g. `''`).
+        let mut has_token = false;
         loop {
             if i == pending.len() {
                 pending.resize(4096, 0);
@@ -542,7 +545,7 @@ where
                             format!("Unterminated quote: {q}"),
                         ));
                     }
-                    if i == 0 {
+                    if !has_token {
                         return Ok(None);
                     }
                     pending.clear();
@@ -563,14 +566,18 @@ where
                 (None, c @ (b'"' | b'\'')) => escape = Some(Escape::Quote(c)),
                 (None, b'\\') => escape = Some(Escape::Slash),
                 (None, c) if c.is_ascii_whitespace() => {
-                    if !result.is_empty() {
+                    if has_token {
                         terminated_by_newline = c == b'\n';
                         break;
                     }
+                    // Separator before the argument has started: skip it.
+                    i += 1;
+                    continue;
                 }
                 (None, c) => result.push(c),
             }
 
+            has_token = true;
             i += 1;
         }
 
